@@ -25,10 +25,10 @@ package tcp
 //@ pred tcpchain(d []gopacket.LayerType) = (len(d) == 3 && d[0] == layers.LayerTypeEthernet && d[1] == layers.LayerTypeIPv4 && d[2] == layers.LayerTypeTCP)
 //@        || (len(d) == 2 && d[0] == layers.LayerTypeIPv4 && d[1] == layers.LayerTypeTCP)
 //@ func validPacket
-//@   props C06 C03 C14 C16
+//@   props C06 C03 C14 C16 C20
 //@   ensures ret <==> tcpchain(decoded)
 //@ func (*ScanMethod).ProcessPacketData
-//@   props C06 C03 C16 C14
+//@   props C06 C03 C16 C14 C20
 //@   observe DecodeLayers, pktFilter, pktFlags, String, Put
 //@   entry row undecodable: [call DecodeLayers(s.parser, data, _) as (e)] when e != nil && ret == e -> exit
 //@   entry row otherframe:  [call DecodeLayers(s.parser, data, _) as (e)] when e == nil && !tcpchain(s.rcvDecoded) && ret == nil -> exit
@@ -70,7 +70,7 @@ package tcp
 //@ pred iphdr(ip *layers.IPv4, r *scan.Request, id0 int) = fresh(ip) && ip.SrcIP == r.SrcIP && ip.DstIP == r.DstIP && ip.Protocol == 6 && ip.Version == 4 && ip.Id == 1 + id0 && 1 <= ip.Id && ip.Id <= 65535 && ip.TTL == 64
 //@ pred ethhdr(e *layers.Ethernet, r *scan.Request) = fresh(e) && e.SrcMAC == r.SrcMAC && e.DstMAC == r.DstMAC && e.EthernetType == 2048
 //@ func (*PacketFiller).Fill
-//@   props C05 C11 C17 C01 C02 C19
+//@   props C05 C11 C17 C01 C02 C19 C07
 //@   observe rand.Intn, rand.Uint32, SetNetworkLayerForChecksum, gopacket.SerializeLayers
 //@   entry row cksumerr: [call rand.Intn(65535) as (id0) ; call rand.Intn(28232) as (sp0) ; call rand.Uint32() as (sq) ; call SetNetworkLayerForChecksum(bind_ck, bind_n) as (ce)] when ce != nil && ret == ce -> exit
 //@   entry row vpn:   [call rand.Intn(65535) as (id0) ; call rand.Intn(28232) as (sp0) ; call rand.Uint32() as (sq) ; call SetNetworkLayerForChecksum(bind_ck, bind_n) as (ce) ;
@@ -128,7 +128,7 @@ package tcp
 //@   ensures f.vpnMode == vpnMode
 // constructor: a zero filler, then the options applied in order, nothing else
 //@ func NewPacketFiller
-//@   props C05 C01 C02 C11 C17 C19
+//@   props C05 C01 C02 C11 C17 C19 C07
 //@   observe o
 //@   entry row init:  [] -> loop 0
 //@   loop 0 row apply: [call o(bind_x)] when fresh(x) -> continue
@@ -137,19 +137,19 @@ package tcp
 // C06 / C03: constructor. Defaults (every TCP reply, all flag letters), then the options in order; the parser decodes
 // from Ethernet (IPv4 in VPN mode) into THIS method's own structs, skips unsupported layers, keeps panic recovery on
 //@ func WithPacketFilterFunc$1
-//@   props C03 C06 C14 C16
+//@   props C03 C06 C14 C16 C20
 //@   modifies s.pktFilter
 //@   ensures s.pktFilter == pktFilter
 //@ func WithPacketFlagsFunc$1
-//@   props C03 C06 C14 C16
+//@   props C03 C06 C14 C16 C20
 //@   modifies s.pktFlags
 //@   ensures s.pktFlags == pktFlags
 //@ func WithScanVPNmode$1
-//@   props C03 C17 C06 C14 C16
+//@   props C03 C17 C06 C14 C16 C20
 //@   modifies s.vpnMode
 //@   ensures s.vpnMode == vpnMode
 //@ func NewScanMethod
-//@   props C06 C03 C14 C16
+//@   props C06 C03 C14 C16 C20
 //@   observe o, gopacket.NewDecodingLayerParser
 //@   entry row init:  [] when sm.PacketSource == psrc && sm.scanType == scanType && sm.results == results && sm.pktFilter == TrueFilter && sm.pktFlags == AllFlags && !sm.vpnMode -> loop 0
 //@   loop 0 row apply: [call o(sm)] -> continue
@@ -162,16 +162,16 @@ package tcp
 // the default reply predicate accepts every TCP segment; EmptyFlags prints nothing; AllFlags prints one letter per set
 // flag in the documented order s a f r p u e c n
 //@ func TrueFilter
-//@   props C03 C06 C14 C16
+//@   props C03 C06 C14 C16 C20
 //@   ensures ret
 //@ func EmptyFlags
-//@   props C03 C06 C14 C16
+//@   props C03 C06 C14 C16 C20
 //@   ensures ret == ""
 
 // C03 / C06: the flag letters of a record are computed from THIS segment alone: one letter per set flag
 // (s a f r p u e c n), none for a clear flag, and the result is exactly what was written
 //@ func AllFlags
-//@   props C03 C06 C14 C16
+//@   props C03 C06 C14 C16 C20
 //@   observe (*strings.Builder).WriteRune, (*strings.Builder).String
 //@   exit require syn: call WriteRune(_, 115) when pkt.SYN then true
 //@   exit forbid  syn: call WriteRune(_, 115) when !pkt.SYN
@@ -199,11 +199,11 @@ package tcp
 
 // the scan method's packet stream is its packet source's, its results are the result channel's
 //@ func (*ScanMethod).Packets
-//@   props C01 C07 C05 C11 C13 C16 C19
+//@   props C01 C07 C05 C11 C13 C16 C19 C12
 //@   observe Packets
 //@   entry row forward: [call Packets(recv.PacketSource, _, _) as (c)] when ret == c -> exit
 //@ func (*ScanMethod).Results
-//@   props C03 C14 C16 C06 C08 C20
+//@   props C03 C14 C16 C06 C08 C20 C09 C10 C11 C12
 //@   observe Chan
 //@   entry row chan: [call Chan(s.results) as (c)] when ret == c -> exit
 
@@ -238,11 +238,11 @@ package tcp
 //@   ensures closureof(ret, "WithPSH$1")
 //@ func WithPacketFilterFunc
 //@   inline
-//@   props C03 C06 C14 C16
+//@   props C03 C06 C14 C16 C20
 //@   ensures closureof(ret, "WithPacketFilterFunc$1") && capt(ret, "pktFilter") == pktFilter
 //@ func WithPacketFlagsFunc
 //@   inline
-//@   props C03 C06 C14 C16
+//@   props C03 C06 C14 C16 C20
 //@   ensures closureof(ret, "WithPacketFlagsFunc$1") && capt(ret, "pktFlags") == pktFlags
 //@ func WithRST
 //@   inline
@@ -254,7 +254,7 @@ package tcp
 //@   ensures closureof(ret, "WithSYN$1")
 //@ func WithScanVPNmode
 //@   inline
-//@   props C03 C17 C06 C14 C16
+//@   props C03 C17 C06 C14 C16 C20
 //@   ensures closureof(ret, "WithScanVPNmode$1") && capt(ret, "vpnMode") == vpnMode
 //@ func WithURG
 //@   inline
